@@ -39,7 +39,8 @@ def gen_seq(r, big=False):
 def gen_conc(r, big=False):
     if r.random() < 0.3:
         return ["chan %s %d %d %d %d %d" % (r.choice(["mpmc", "batch"]), r.choice([1, 2, 4, 64]), r.randint(1, 3), r.randint(1, 3),
-                                            r.choice([20, 40]), r.choice([0, 1500, 3000]))]
+                                            r.choice([20, 40]), r.choice([0, 1500, 3000]))] if r.random() < 0.6 else \
+            ["chan %s %d %d %d %d 1" % (r.choice(["mpmc", "batch"]), r.choice([1, 2, 4, 64]), r.randint(1, 2), r.randint(1, 2), r.choice([10000, 20000]))]
     kind = r.choice(["mpmc", "mpmc", "batch", "spsc"])
     return ["ring %s %d %d %d %d %d" % (kind, r.choice([1, 2, 2, 3, 4, 8, 64]), r.randint(1, 4), r.randint(1, 4),
                                         r.choice([500, 2000, 5000] if not big else [2000, 5000, 20000]), r.choice([0, 1]))]
@@ -123,7 +124,7 @@ def run(rep, tier, seed, replay=None):
         for p, res in zip(progs, results):
             nev += len(res.trace)
             w = p[0].split()
-            rep.distinct((w[0], w[1], "cap<=2" if int(w[2]) <= 2 else "cap>2", "P%s" % min(int(w[3]), 2), "C%s" % min(int(w[4]), 2), w[6] if w[0] == "ring" else "gap" if int(w[6]) else "nogap"))
+            rep.distinct((w[0], w[1], "cap<=2" if int(w[2]) <= 2 else "cap>2", "P%s" % min(int(w[3]), 2), "C%s" % min(int(w[4]), 2), w[6] if w[0] == "ring" else "rdv" if int(w[6]) == 1 else "gap" if int(w[6]) else "nogap"))
             viol = []
             if res.result.startswith("result hung"):
                 viol.append("the queue hung: producers or consumers never finished (30 s)")
@@ -131,7 +132,7 @@ def run(rep, tier, seed, replay=None):
                 viol.append("the queue crashed: " + res.result)
             for l in res.trace:
                 t = l.split()
-                if t[0] == "maxlat_us" and int(w[6]) >= 1500 and int(t[1]) >= 50000:
+                if t[0] == "maxlat_us" and (int(w[6]) >= 1500 or int(w[6]) == 1) and int(t[1]) >= 50000:
                     viol.append("a consumer blocked in recv() stayed asleep %s us although an element was available (lost notification, "
                                 "rescued only by the 100 ms re-check)" % t[1])
             if res.reject:
@@ -146,6 +147,13 @@ def run(rep, tier, seed, replay=None):
                     unlisted.append(v)
             if not viol:
                 okc += 1
+            if unlisted and not reported and all("stayed asleep" in v for v in unlisted) and not replay:
+                # a latency can also be an OS scheduling hiccup of the machine: it counts only if the same program shows it again
+                again = hsim.run_programs(cb, [p] * 3, model="ringlog", timeout=3000)
+                rep.cov["latency_confirm_runs"] = rep.cov.get("latency_confirm_runs", 0) + 3
+                if not any(int(l.split()[1]) >= 50000 for r2 in again for l in r2.trace if l.startswith("maxlat_us")):
+                    rep.cov["latency_not_reproduced"] = rep.cov.get("latency_not_reproduced", 0) + 1
+                    unlisted = []
             if unlisted and not reported:
                 rep.violation("counterexample", dict(harness="mv_ring", kind_of="conc", program=p, expected=unlisted[0],
                                                      trace=[l for l in res.trace if not l.startswith("got")][-10:],
@@ -160,6 +168,7 @@ def run(rep, tier, seed, replay=None):
                        "SPSC queues with capacity requests 0..9 (capacities 2..16, many laps around the ring) compared with the Lean ring model; "
                        "B: real concurrent runs - 1..4 producer and 1..4 consumer OS threads pushing/popping or sending/receiving 500..20000 tagged "
                        "elements each through queues of capacity 2..64, and RingChannel with consumers blocked in recv() on their own vCPUs and "
-                       "paced producers (per-element latency measured) - every element received is checked by the Lean acceptor (sent, not "
+                       "paced producers, or producers that aim every push at the moment a consumer using recv(0,0) decides to sleep (per-element latency "
+                       "measured; a latency >= 50 ms must reproduce in a re-run to count) - every element received is checked by the Lean acceptor (sent, not "
                        "received before, later than what that consumer already has from that producer; all received in the end; capacity)")
     rep.sample(seqs[-1] if seqs else (progs[-1] if progs else []))
